@@ -262,7 +262,11 @@ func Analyse(b []byte) (*Layout, error) {
 			l.SigValOff, l.SigValEnd = sv.ValOff, sv.End
 			var s []byte
 			for _, c := range nm.Children {
-				if c.Type == 2 {
+				// the parameters digest is not signed. The NDN packet format allows exactly one such
+				// component; in a name that carries several (a follow-up Interest built on an earlier
+				// parameterized Interest's name) the last one is this Interest's digest and the earlier
+				// ones are ordinary, signed components - the convention the encoder follows
+				if c.Type == 2 && c == l.DigestComp {
 					continue
 				}
 				s = append(s, b[c.Off:c.End]...)
